@@ -4,8 +4,8 @@
    stream derived from the seed, choices, host behaviour) and consults nothing else; the
    correspondence family feeds it the stream of an independent rand.NewSource(seed integer) and
    compares with repeated executions of the implementation, in process and in child processes. *)
-From Coq Require Import List ZArith NArith Bool.
-From YS Require Import Base.Sexp Num.F64 Yarn.Ast Yarn.Value Yarn.Eval Yarn.RunnerWire Proofs.RngProofs.
+From Coq Require Import List ZArith NArith Bool Reals.
+From YS Require Import Base.Sexp Num.F64 Yarn.Ast Yarn.Value Yarn.Eval Yarn.RunnerWire Proofs.RngProofs Proofs.RandomProofs.
 Import ListNotations.
 Local Open Scope Z_scope.
 
@@ -31,6 +31,17 @@ Theorem C09_random_range_too_wide_is_error : forall v a b e,
   call_builtin v (STR "random_range") [VNum a; VNum b] e = Some (Fail, e).
 Proof. exact random_range_too_wide_is_error. Qed.
 Print Assumptions C09_random_range_too_wide_is_error.
+
+(* random(): for every stream of Int63 values a finite number in [0, 1], and below 1 unless 17
+   candidates in a row rounded to 1 (the real code keeps drawing; 16 is the model's redraw budget).
+   B2R is Flocq's real value of a double. *)
+Theorem C09_random_range : forall v e, int63_stream (rng e) ->
+  exists x e', call_builtin v (STR "random") [] e = Some (Val (Some (VNum x)), e') /\
+               Flocq.IEEE754.BinarySingleNaN.is_finite x = true /\
+               (0 <= Flocq.IEEE754.BinarySingleNaN.B2R x <= 1)%R /\
+               ((Flocq.IEEE754.BinarySingleNaN.B2R x < 1)%R \/ (length (rng e) - length (rng e') = 17)%nat).
+Proof. exact random_builtin_range. Qed.
+Print Assumptions C09_random_range.
 
 Theorem C09_seed_alphabet_accepted : forall s acc,
   (forall c, In c s -> ((48 <=? c) && (c <=? 57) || (97 <=? c) && (c <=? 122))%N = true) ->
